@@ -569,3 +569,14 @@ def known_cd_music_history():
             "plan": [{"mode": "use", "sol": ("solution", 1), "use": {"surface": 1}, "save": {"solution": 2, "surface": 2},
                       "reaction": None}],
             "extra_phases": {}, "elements": ["Na", "Cl", "H", "O"], "heads": [], "punch": {}, "tags": ["known:cd_music-hfo"]}
+
+
+def known_histories():
+    """deterministic reproductions of the listed known findings (cd_music, negative-total recovery, absent-phase drift)"""
+    import json
+    from pathlib import Path
+    out = [known_cd_music_history()]
+    f = Path(__file__).with_name("c02_known.json")
+    if f.exists():
+        out += json.loads(f.read_text())
+    return out
